@@ -33,6 +33,8 @@ func init() {
 			{"C01-R5", "proxy-state refresh vs snapshot rebuild", c01r5},
 			{"C01-R6", "reason markers narrow a push only when they are the only reason", c01r6},
 			{"C01-R7", "a change marker rebuilds the snapshot index that holds what it marks", c01r7},
+			{"C01-R8", "endpoint updates of services with inlined (DNS) endpoints request a cluster push", c01r8},
+			{"C01-R9", "the cluster push for inlined endpoints looks at the old and the new object of an update", c01r9},
 		},
 	})
 }
